@@ -49,6 +49,11 @@ def arity_templates():
             lambda a, b: ('meth', a, b), lambda a: ('meth', a), lambda a, b, c: ('meth', a, b, c),
             lambda a, b: ('pipe', a, b), lambda a: ('pipe', a), lambda a, b, c: ('pipe', a, b, c),
             lambda a, b: ('lam', a, b),
+            lambda a, b: ('bcall', 'get', 'DD', a, b), lambda a, b: ('bcall', 'get', 'DE', a, b), lambda a: ('bcall', 'get', 'DD', a),
+            lambda a, b: ('bcall', 'max', None, a, b), lambda a, b, c: ('bcall', 'list', None, a, b, c), lambda a, b: ('bcall', 'index_of', 'L', a),
+            lambda a, b: ('bcall', 'join', 'L', a), lambda a, b: ('bcall', 'replace', 'S', a, b), lambda a, b: ('bcall', 'sorted', 'L', a, b),
+            lambda a, b: ('bcall', 'pretty', 'L', a), lambda a, b: ('bcall', 'round', None, a, b), lambda a, b: ('bcall', 'split', 'S', a, b),
+            lambda a: ('bcall', 'str', None, a), lambda a, b: ('bcall', 'startswith', 'S', a),
             lambda a: ('list', a), lambda a, b, c: ('list', a, b, c),
             lambda a, b: ('dict', (a, b)), lambda a, b, c, d: ('dict', (a, b), (c, d)),
             lambda a, b, c: ('idx', a, b, c)]
@@ -135,6 +140,9 @@ def render(s):
         return ('((%s) | g(%s))' % (R(s[1]), ', '.join(R(a) for a in s[2:]))) if len(s) > 2 else '((%s) | g)' % R(s[1])
     if k == 'lam':
         return 'lam(%s, %s)' % (R(s[1]), R(s[2]))
+    if k == 'bcall':
+        args = ([s[2]] if s[2] else []) + [R(a) for a in s[3:]]
+        return '%s(%s)' % (s[1], ', '.join(args))
     if k == 'list':
         return '[%s]' % ', '.join(R(a) for a in s[1:])
     if k == 'dict':
@@ -198,6 +206,12 @@ def r5(s, env):
         return [r5(a, env) for a in s[1:]]
     if k == 'lam':
         return [r5(s[1], env), r5(s[2], env)]
+    if k == 'bcall':
+        # a builtin: every argument is evaluated, in order, before the builtin is applied (R2's own implementation gives the outcome)
+        from lib import refeval
+        fixed = {'DD': {'True': 1, 'x': 2}, 'DE': {}, 'L': [10, 11, 12, 13], 'S': 'abc abc'}
+        args = ([fixed[s[2]]] if s[2] else []) + [r5(a, env) for a in s[3:]]
+        return guard(lambda: refeval.BUILTINS[s[1]](*args))
     if k == 'list':
         return [r5(a, env) for a in s[1:]]
     if k == 'dict':
@@ -358,6 +372,9 @@ def setup(ctx):
     ctx.t = t
     ctx.raise_at = None
     ctx.plan = []
+    # values that happen to be syntax-tree objects of the package (a host may keep parsed programs in its data): they are VALUES here
+    from smartquery.ast_ops import LambdaOp, NameOp
+    OP_VALUES[:] = [ctx.P.parse('t(99)'), LambdaOp(args=[NameOp('q')], expr=ctx.P.parse('t(98)')), ctx.P.parse('t(97) + 1')]
 
 
 def shapes(ctx):
@@ -402,12 +419,17 @@ def cases(ctx):
 
 
 def host(ctx, mode):
-    return {'t': ctx.t, 'f': lambda *a: list(a), 'g': lambda *a: list(a), 'c': [0, 0], 'dd': {}, 'x': 1, 'L': [10, 11, 12, 13]}
+    return {'t': ctx.t, 'f': lambda *a: list(a), 'g': lambda *a: list(a), 'c': [0, 0], 'dd': {}, 'x': 1, 'L': [10, 11, 12, 13], 'DD': {'True': 1, 'x': 2}, 'DE': {}, 'S': 'abc abc'}
+
+
+OP_VALUES = []
 
 
 def plan_values(mode, bits):
     if mode == 'bool':
         return [bool(b) for b in bits]
+    if mode == 'op':
+        return [OP_VALUES[i % len(OP_VALUES)] if b else None for i, b in enumerate(bits)]
     return [[i] if b else [] for i, b in enumerate(bits)]
 
 
@@ -425,7 +447,7 @@ def run_case(case, ctx):
     cached = sub % 2 == 0
     ctx.count('shapes_on_caching_parser' if cached else 'shapes_on_plain_parser')
     for bits in assignments:
-        for mode in ('bool', 'obj'):
+        for mode in (('bool', 'obj', 'op') if (sub % 3 == 0 and s[0] in ('and', 'or', 'if', 'not', 'call', 'list', 'dict', 'meth', 'pipe')) else ('bool', 'obj')):
             for raise_at in [None] + (list(range(k)) if (not ctx.quick or r.random() < 0.25) else [r.randrange(k)] if k else []):
                 ctx.evaluations += 1
                 plan = plan_values(mode, bits)
@@ -471,7 +493,7 @@ def run_case(case, ctx):
                 if exp[0] == 'value' and not statement and s[0] in ('and', 'or', 'if'):
                     ctx.cov('literal_operands', any(isinstance(x, tuple) and x[:1] == ('lit',) for x in s[1:]))
                     ctx.count('deciding_operand_checks')
-                    ok = (got[1] is exp[1]) if mode == 'obj' and isinstance(exp[1], list) and any(exp[1] is p for p in plan) else (got[1] == exp[1])
+                    ok = (got[1] is exp[1]) if (mode in ('obj', 'op') and any(exp[1] is p for p in plan)) else (got[1] == exp[1])
                     if not ok:
                         ctx.violation('and/or/if-else did not yield the deciding operand itself', case, detail=detail)
                         return
